@@ -853,7 +853,7 @@ func genInventory(repo string) string {
 					case *ast.RangeStmt:
 						if tv, ok := info.Types[x.X]; ok {
 							if _, isMap := tv.Type.Underlying().(*types.Map); isMap {
-								items = append(items, invItem{"maprange", pd, fn, src(x.X)})
+								items = append(items, invItem{"maprange", pd, fn, src(x.X) + " : " + shortType(tv.Type)})
 							}
 						}
 					case *ast.GoStmt:
@@ -928,7 +928,7 @@ func genInventory(repo string) string {
 	b.WriteString("].\n\n")
 	// normalised keys: what a site IS, not where exactly it stands - an unchecked assertion is keyed by
 	// package and asserted type, a panic / recover / sync.Once by package, an external call by package
-	// and callee, a package-level variable (and a write to one) by its type; a map iteration stays tied to its function
+	// and callee, a package-level variable (and a write to one) by its type, a map iteration by the type of the map
 	// (its classification in Spec/MapRanges.v is per function)
 	b.WriteString("(* (kind, package, normalised detail) *)\nDefinition inventory_keys : list (string * string * string) := [\n")
 	for i, it := range items {
@@ -948,7 +948,12 @@ func genInventory(repo string) string {
 		case "panic", "recover", "once":
 			key = ""
 		case "maprange":
-			key = it.fn
+			// by the type of the map that is iterated: the loop may be rewritten, renamed or moved to
+			// another function of its package; one more loop over such a map is one too many
+			key = d
+			if j := strings.Index(d, " : "); j >= 0 {
+				key = d[j+3:]
+			}
 		case "pkgvar":
 			// by type, not by name: a renamed variable is the same variable
 			if j := strings.Index(d, " : "); j >= 0 {
